@@ -278,3 +278,39 @@ CONCRETE["assumed:akai_entry_parse_effects"] = {
              "classes promised by the ASSUMED contracts construct:FileEntryConstruct.parse_stream, construct:Int16ul.parse_stream, construct:FileEntryConstruct.sizeof",
     "timeout_s": 5.0, "budget_quick": 60, "budget_thorough": 300,
 }
+
+
+# ---------------------------------------------------------------------------------------------------------------- C14 / C15: realising the files of a volume
+# Volume._realize_files: a file whose content cannot be parsed (InvalidFileEntry / ConstructError from its lazy parser - a damaged or
+# cut-off file) is left out; every other file of the volume is realised, in table order.  The lazy parser of an entry is abstract (it
+# fails or returns arbitrarily); proved for volumes of 1, 2 and 3 entries.
+@contract("akai:FileEntry._f_file_content#abstract", abstract=True, assumed=True,
+          note="the deferred parser of one file: returns the parsed file or raises InvalidFileEntry / ConstructError (StreamError, MappingError ... are ConstructErrors)")
+def _ffc(c):
+    c.returns(("obj", "ParsedFileToken", {}))
+    c.raises("InvalidFileEntry", "True")
+    c.raises("ConstructError", "True")
+    c.modifies()
+
+
+def _mk_realize(n):
+    ENTRY = ("obj", "smpl_extract.akai.file_entry:FileEntry", {"name": "str", "file_type": "int", "_file": ("const", None), "_f_file_content": ("drop",)})
+
+    @contract(f"smpl_extract.akai.volume:Volume._realize_files[n={n}]", source_key="smpl_extract.akai.volume:Volume._realize_files", props=["C14", "C15"], proof_only=True)
+    def _rf(c):
+        c.self_obj(("self", "smpl_extract.akai.volume:Volume", {"file_entries": ("clist", [ENTRY] * n), "_is_files_realized": ("const", False), "_files": ("clist", [])}))
+        c.abstract_calls = {"self._f_file_content": "akai:FileEntry._f_file_content#abstract"}
+        got = " + ".join(f"ite(self.file_entries[{i}]._file is not None, 1, 0)" for i in range(n))
+        whole = f"len(self.file_entries) == {n} and "          # first: later clauses index the table (an entry removed from it is a violation, not an index error)
+        c.ensures("self._is_files_realized and len(self.file_entries) == " + str(n), "the-table-is-left-as-it-was")
+        c.ensures(whole + f"len(self._files) == {got}", "exactly-the-files-that-could-be-realised")
+        for i in range(n):
+            before = " + ".join([f"ite(self.file_entries[{j}]._file is not None, 1, 0)" for j in range(i)]) or "0"
+            c.ensures(whole + f"implies(self.file_entries[{i}]._file is not None, self._files[{before}] is self.file_entries[{i}]._file)",
+                      f"file-{i}-is-realised-in-its-place-whatever-happens-to-the-others")
+        c.modifies("self._files", "self._is_files_realized", *[f"self.file_entries[{i}]._file" for i in range(n)])
+    return _rf
+
+
+for _n in (1, 2, 3):
+    _mk_realize(_n)
